@@ -389,12 +389,12 @@ def doBhg (N D : Nat) (row col : Array Nat) (val y : Array Rat) (θ : Rat) (o : 
       let frag := match QuadTree.buildIn data fuel root (List.range N) with
         | none => true
         | some t => (List.range N).any fun n => fragileCrit data θ M n t
-      let twins := (List.range N).any fun i => (List.range N).any fun j => i ≠ j && decide (data i = data j)
       let sc := maxR 1 (maxAbs m.toList)
       let cmp := if frag then "skip:near-tie" else cmpLists g.toList m.toList (sc * (tol30 + M / two 44))
       -- θ → 0 : the exact formula with the same P (dense view of the CSR matrix), true distances
       let bh0 :=
-        if D ≠ 2 || twins || decide (θ > 1 / 100000) then "skip" else
+        -- coincident map points are NOT skipped: `bh_theta0_eq_exact` (Props/C17) holds for every map
+        if D ≠ 2 || decide (θ > 1 / 100000) then "skip" else
         let spec := flat (exactGradientSpec (matOf N N (csrDense N c)) (matOf N D y))
         cmpLists g.toList spec (maxR 1 (maxAbs spec) * (tol30 + M / two 44))
       s!"cmp={cmp} bh0={bh0}"
